@@ -270,8 +270,14 @@ func localCalls(w *World, ri int, alpha string) []pt.Action {
 			for _, p := range uniq(0, n) {
 				add(pt.Action{Op: "dins", T: t, P: p, N: 1, V: "p"})
 			}
-			if rich {
-				add(pt.Action{Op: "dins", T: t, P: 0, N: 2, V: "o"})
+			if rich || strings.Contains(alpha, "cbatch") {
+				add(pt.Action{Op: "dins", T: t, P: 0, N: 2, V: "o"}) // a batch of containers: nested identifiers of several values in one operation
+			}
+			if strings.Contains(alpha, "cbatch") {
+				add(pt.Action{Op: "dins", T: t, P: n, N: 2, V: "a"})
+				if n >= 2 {
+					add(pt.Action{Op: "dupd", T: t, P: 0, N: 2, V: "a"})
+				}
 			}
 			if n > 0 {
 				for _, p := range uniq(0, n-1) {
